@@ -173,6 +173,8 @@ func scopesValid(thorough bool) []Scope {
 		Scope{Name: "L-half-2@far-corner", GS: synthGS(0, 2, [2]int64{14, 14}), Spec: lat.Spec{Points: below(lat.Window(2, 2, 2), 4), MaxK: 4, Valid: true}, IDSets: one, Cfgs: keepCfgs},
 		Scope{Name: "L-multi@origin", GS: synthGS(2, 2, [2]int64{0, 0}), Spec: lat.Spec{Points: scale(lat.Window(2, 2, 2), 4), MaxK: k(3, 4), Valid: true}, IDSets: subsetsOf([]int{0, 1, 2}), Cfgs: keepCfgs},
 		Scope{Name: "L-multi@far-corner", GS: synthGS(2, 2, [2]int64{56, 56}), Spec: lat.Spec{Points: below(scale(lat.Window(2, 2, 2), 4), 16), MaxK: k(3, 4), Valid: true}, IDSets: subsetsOf([]int{0, 1, 2}), Cfgs: keepCfgs},
+		Scope{Name: "R-half-2:NetherlandsRDNewQuad-z14-negative-x", GS: realGS("NetherlandsRDNewQuad", 14, 2, -43.84, 300107.2), Spec: lat.Spec{Points: lat.Window(2, 2, 2), MaxK: k(3, 4), Valid: true}, IDSets: [][]int{{14}}, Cfgs: keepCfgs},
+		Scope{Name: "R-half-2:WebMercatorQuad-z17-negative-xy", GS: realGS("WebMercatorQuad", 17, 2, -550000.1, -6800000.2), Spec: lat.Spec{Points: lat.Window(2, 2, 2), MaxK: k(3, 4), Valid: true}, IDSets: [][]int{{17}}, Cfgs: keepCfgs},
 		Scope{Name: "R-half-2:WebMercatorQuad-z20", GS: realGS("WebMercatorQuad", 20, 2, 550000.1, 6800000.2), Spec: lat.Spec{Points: lat.Window(2, 2, 2), MaxK: k(3, 4), Valid: true}, IDSets: [][]int{{20}}, Cfgs: keepCfgs},
 	)
 	// families of larger polygons (pinched necks with holes, lake + ditch, C-shapes): see families.go
